@@ -153,7 +153,7 @@ def trace (s : Abs) : List Op → List (Option (Option Int))
 end Spec
 
 /-- the values returned by the operations of a history on the model -/
-def trace (s : State) : List Op → List (Option (Option Int))
+def trace [ArrCfg] (s : State) : List Op → List (Option (Option Int))
   | [] => []
   | op :: ops =>
     match step s op with
